@@ -31,7 +31,9 @@ ASSUMPTIONS = ["dynamic Enum subclasses are registered in this module so that pi
 
 _NAMES = ["A", "B", "C", "ZERO", "X1", "neg", "Lower", "_U", "VALUE", "name_", "ALIAS", "K9",
           # names that are also attributes of int (members are ints), sunder names
-          "real", "imag", "numerator", "denominator", "bit_length", "conjugate", "_MAX_", "_first_"]
+          "real", "imag", "numerator", "denominator", "bit_length", "conjugate", "_MAX_", "_first_",
+          # names of the two attributes every member has
+          "value", "name"]
 _CLS_NAMES = ["GenEnum", "Alert", "HTTPCode", "lvl"]
 
 
@@ -341,7 +343,7 @@ def targets(ctx):
 
     # corpus enum definitions (through the plugin) as fixed definition cases
     def corpus_defs():
-        for ename in ("Color", "Plain", "Word"):  # (Kw: value names that are keywords get an underscore - the known C05 finding)
+        for ename in ("Color", "Plain", "Word", "Edge"):  # (Kw: value names that are keywords get an underscore - the known C05 finding)
             yield {"plugin_enum": ename}
 
     @collecting
